@@ -82,10 +82,30 @@ theorem corenessOf_perm (kc kc' : Nat → Out Int n)
     intro k _
     simp [(h k.val).2]
 
+theorem core_rowSum_perm (M : AMat Int n) (v : Fin n) : Core.rowSum (permA σ M) v = Core.rowSum M (σ v) := by
+  unfold Core.rowSum; exact fsum_congr_perm σ _ _ (fun _ => by simp)
+
+/-- the repaired `kcoreness_centrality_bd` loop (`2n-1` values of `k`, membership by column sum + row sum) -/
+theorem corenessOfBd_perm (kc kc' : Nat → Out Int n)
+    (h : ∀ k, (kc' k).M = permA σ (kc k).M ∧ (kc' k).kn = (kc k).kn) :
+    (∀ v, (corenessOfBd kc').1 v = (corenessOfBd kc).1 (σ v)) ∧ (corenessOfBd kc').2 = (corenessOfBd kc).2 := by
+  constructor
+  · intro v
+    simp only [corenessOfBd]
+    congr 1
+    funext k
+    split
+    · simp [(h k).1, core_colSum_perm, core_rowSum_perm]
+    · rfl
+  · simp only [corenessOfBd]
+    apply List.map_congr_left
+    intro k _
+    simp [(h k.val).2]
+
 theorem core_kcorenessBd_perm (A : AMat Int n) :
     (∀ v, (Core.kcorenessBd (permA σ A)).1 v = (Core.kcorenessBd A).1 (σ v)) ∧
       (Core.kcorenessBd (permA σ A)).2 = (Core.kcorenessBd A).2 :=
-  corenessOf_perm σ _ _ (fun k => core_kcoreBd_perm σ A k)
+  corenessOfBd_perm σ _ _ (fun k => core_kcoreBd_perm σ A k)
 
 theorem prepBu_perm (A : AMat Int n) : prepBu (permA σ A) = permA σ (prepBu A) := by
   unfold prepBu
